@@ -337,6 +337,9 @@ func Main(args []string) int {
 		}
 		return 0
 	}
+	if len(args) >= 3 && args[0] == "__c19" {
+		return C19Main(args[1], args[2])
+	}
 	if len(args) >= 2 && args[0] == "__sweep" {
 		return SweepMain(args[1])
 	}
